@@ -71,11 +71,16 @@ def jobs(tier):
     from checks import c11
     L0 = layout()
     js += [(c11.unit_d2o, ("area", k)) for k in D.all_area_keys()]
+    # a stream decodes each message as a separate decode would: nothing is carried from one pair to the next
+    from checks import walkers as W
+    js += [(W.unit_stream, ("strict",)), (W.unit_stream, ("warn",))]
     js += D.g_dispatch(m) + D.g_structs(m) + D.g_arrays(m) + D.g_frames(m) + D.g_leaf(("strict", "warn"), deep=1) + D.g_region(("strict", "warn"), tier) + D.g_pump(("strict", "warn")) + D.g_typed(("INT", "VALID"))
     return js
 
 
 def keep(name, ob):
+    if name.startswith("WALK/stream/") and "/STREAM/" in name:
+        return True
     if "/encrypted/" in name and ("item0:event" in name or name.endswith("no-internal-error")):
         return True  # which class object stands for an encrypted area
     if name.startswith("C11/D2O/") and "encrypted" in name:
